@@ -572,6 +572,13 @@ fn roundtrip_case(rep: &mut Report, rng: &mut Rng, sub: &'static str, case: u64)
         None => return,
     };
     let what = format!("Quantity::from(Time({})) = {}", t, f(q.value));
+    // The way back is quantified over "all finite f32 second values below 9e9" only: a Time beyond that (|t| > 9e18 ns,
+    // the i64 edge stratum of the forward conversion) converts to seconds the statement does not cover - an implementation
+    // may refuse them (a benign refactor that returns Err where the cast would saturate raised a false alarm here).
+    if q.value.abs() >= 9.0e9 {
+        rep.tally("roundtrip_beyond_9e9_seconds_not_judged");
+        return;
+    }
     let back = match q2t(rep, sub, case, q, &what) {
         Some(b) => b,
         None => return,
